@@ -4,3 +4,5 @@ import Smoke.Render
 import Smoke.RenderProof
 import Smoke.Refine
 import Smoke.Scan
+import Smoke.ScanProof
+import Smoke.Prec
